@@ -43,6 +43,7 @@ func checkCiscoConv(p *Prog, r *Report, prop, flavour string) {
 	ruleCaseFolding(p, r, "R-FOLD", prop, pk)
 	ruleConstantFormats(p, r, "R-FMT")
 	ruleMapsCopy(p, r, "R-MC")
+	ruleElemStoreDiscipline(p, r, "R-ES", pk)
 	ruleNoClockInComputation(p, r, "R-CLK")
 	r.rule("R08.c", "Emission discipline (see C08): every call of the emitting helpers in package cisco is an audited site.")
 	ruleEmitDiscipline(p, r, "R08.c", prop, "cisco", []string{"(*cisco.State).addChange", "(*cisco.State).addToplevel", "(*cisco.State).addCmd", "(*cisco.State).addCmds", "(*cisco.State).delCmds"}, 33)
